@@ -202,4 +202,50 @@ theorem filter_key_of_nodup {β : Type} (d : List (Nat × β)) (h : (d.map (·.1
       simp only [h1, h2, Bool.false_eq_true, if_false]
       exact ih h.2
 
+/-! ### seeded folds (`merge_with(reduce(f))`, `reduceby` without initial) -/
+
+section Seed
+variable {α β : Type}
+/-- one step of a seeded left fold on an optional total -/
+def seedStep {γ : Type} (op : β → γ → β) (seed : γ → β) (o : Option β) (x : γ) : Option β :=
+  some (seedUpd op seed x o)
+
+theorem lookup_foldl_seed {γ : Type} (kf : γ → Nat) (op : β → γ → β) (seed : γ → β) (items : List γ)
+    (d : List (Nat × β)) (κ : Nat) :
+    (items.foldl (fun d x => alUpdate (kf x) (seedUpd op seed x) d) d).lookup κ =
+      (items.filter fun x => kf x == κ).foldl (seedStep op seed) (d.lookup κ) := by
+  induction items generalizing d with
+  | nil => simp
+  | cons x xs ih =>
+    simp only [List.foldl_cons, List.filter_cons]
+    rw [ih]
+    by_cases hx : kf x = κ
+    · subst hx
+      simp only [beq_self_eq_true, if_true, lookup_alUpdate, List.foldl_cons, seedStep]
+    · have h1 : (kf x == κ) = false := by simpa using hx
+      have h2 : ¬ κ = kf x := fun h => hx h.symm
+      simp only [h1, Bool.false_eq_true, if_false, lookup_alUpdate, h2]
+
+theorem foldl_seed_nodup {γ : Type} (kf : γ → Nat) (op : β → γ → β) (seed : γ → β) (items : List γ)
+    (d : List (Nat × β)) (h : (d.map (·.1)).Nodup) :
+    ((items.foldl (fun d x => alUpdate (kf x) (seedUpd op seed x) d) d).map (·.1)).Nodup := by
+  induction items generalizing d with
+  | nil => simpa using h
+  | cons x xs ih => simp only [List.foldl_cons]; exact ih _ (keys_alUpdate_nodup _ _ d h).1
+
+theorem foldl_seedStep_some {γ : Type} (op : β → γ → β) (seed : γ → β) (a : β) (xs : List γ) :
+    xs.foldl (seedStep op seed) (some a) = some (xs.foldl op a) := by
+  induction xs generalizing a with
+  | nil => rfl
+  | cons x xs ih => simp only [List.foldl_cons, seedStep, seedUpd]; exact ih _
+
+/-- a seeded fold from nothing is `functools.reduce` -/
+theorem foldl_seedStep_none (op : β → β → β) (xs : List β) :
+    xs.foldl (seedStep op id) none = pyReduce op xs := by
+  cases xs with
+  | nil => rfl
+  | cons x xs => simp only [List.foldl_cons, seedStep, seedUpd, id, pyReduce]; exact foldl_seedStep_some op id x xs
+
+end Seed
+
 end Dask.BagOps
